@@ -123,6 +123,27 @@ func (fr *Frame) hashNative(f *ssa.Function, args []Val, in ssa.Instruction) (Va
 			ex.Trusted["BLAKE2b-256 modelled as an uninterpreted function of the item stream written to the Hasher (T9)"] = true
 			return TV{h, f.Signature.Results().At(0).Type()}, true
 		}
+	case modPath + "/rhp/v4.sizeof":
+		// sizeof(v): the number of bytes v.EncodeTo writes (computed on the item stream)
+		if iv, ok := args[0].(IfaceV); ok && iv.Dyn != nil {
+			ms := ex.P.SSA.MethodSets.MethodSet(iv.DynTyp)
+			if sel := ms.Lookup(nil, "EncodeTo"); sel != nil {
+				if mf := ex.P.SSA.MethodValue(sel); mf != nil {
+					if et := ex.namedType(typesPkg, "Encoder"); et != nil {
+						ec := ex.newCell(et, "sizeof.E")
+						savedFlat := ex.flatWire
+						ex.flatWire = true
+						st := fr.captureStream(ec, func() {
+							fr.callFunc(nil, mf, []Val{iv.Dyn, PtrV{Cell: ec, Elem: et}}, nil, in)
+						})
+						ex.flatWire = savedFlat
+						if bl := byteLen(st); bl != nil && bl.Op == "int" {
+							return TV{bl, types.Typ[types.Int]}, true
+						}
+					}
+				}
+			}
+		}
 	case modPath + "/blake2b.Sum256":
 		if ex.P.Store.Funcs[name] != nil {
 			return nil, false
@@ -315,6 +336,14 @@ func (q *streamEqCtx) rawEq(ln, off1, d1, off2, d2 *Term) *Term {
 		}
 		return And(parts...)
 	}
+	if r := rangeOf(ln); r != nil && r.Lo.Sign() >= 0 && r.Hi.IsInt64() && r.Hi.Int64() <= 64 {
+		// a short raw item of symbolic length (e.g. the 0- or 1-byte replay prefix)
+		var parts []*Term
+		for i := int64(0); i < r.Hi.Int64(); i++ {
+			parts = append(parts, Implies(Lt(IntC(i), ln), Eq(Select(d1, Add(off1, IntC(i))), Select(d2, Add(off2, IntC(i))))))
+		}
+		return And(parts...)
+	}
 	k := Sym("$k!raw", SInt)
 	return Forall([]*Term{k}, Implies(And(Le(IntC(0), k), Lt(k, ln)), Eq(Select(d1, Add(off1, k)), Select(d2, Add(off2, k)))))
 }
@@ -449,7 +478,7 @@ func (ex *Exec) preimageObligations(fr *Frame, con *Contract, entryEnv, post *Sp
 			ghost[tv.T] = true
 		}
 	}
-	var idx []*Term
+	idx := []*Term{IntC(0)} // the first element of every segment is always instantiated
 	for t := range ghost {
 		if t.Sort == SInt {
 			idx = append(idx, t)
@@ -859,5 +888,177 @@ func domainSepEngine(p *Program, res *CheckResult) {
 		rep.Assumed = append(rep.Assumed, "domain separation is decided on the byte layout of the leading fixed-size items of the symbolic streams (distinct constants at equal offsets, disjoint total lengths, or a constant outside a length prefix's range <= 2^40)")
 		res.Reports = append(res.Reports, rep)
 		res.Obls = append(res.Obls, rep.Obls...)
+	}
+}
+
+// ---- byte length of streams (C19) ----
+
+// captureStream runs fn with the emissions to encoder cell c redirected to a private log and
+// returns that log folded into a nil-terminated stream.
+func (fr *Frame) captureStream(c *Cell, fn func()) *Term {
+	ex := fr.ex
+	saved := ex.encLog[c]
+	if ex.encLog == nil {
+		ex.encLog = map[*Cell][]emission{}
+	}
+	ex.encLog[c] = nil
+	savedInh, savedSegs, savedBlk := fr.inheritSeg, fr.segs, fr.curBlock
+	fr.inheritSeg, fr.segs, fr.curBlock = nil, nil, nil
+	fn()
+	fr.inheritSeg, fr.segs, fr.curBlock = savedInh, savedSegs, savedBlk
+	log := ex.encLog[c]
+	ex.encLog[c] = saved
+	// guards relative to the current path
+	rel := make([]emission, len(log))
+	copy(rel, log)
+	drop := map[*Term]bool{}
+	for _, g := range conjuncts(fr.cur) {
+		drop[g] = true
+	}
+	for i := range rel {
+		var keep []*Term
+		for _, g := range conjuncts(rel[i].guard) {
+			if !drop[g] {
+				keep = append(keep, g)
+			}
+		}
+		rel[i].guard = And(keep...)
+	}
+	return foldLog(rel, MkCtor(stNil))
+}
+
+// flatSlice: EncodeSlice / EncodeSliceCast in flat mode: the length prefix and one segment whose
+// body is the element codec run on the element at the segment index.
+func (fr *Frame) flatSlice(f *ssa.Function, args []Val, in ssa.Instruction, oname string) bool {
+	ep, ok := args[0].(PtrV)
+	st, ok2 := fr.term(args[1])
+	if !ok || !ok2 || !isSliceSort(st.Sort) || len(ep.Path) != 0 {
+		return false
+	}
+	targs := f.TypeArgs()
+	if len(targs) == 0 {
+		return false
+	}
+	// the element codec: method EncodeTo of the first type argument (wire type)
+	wt := targs[0]
+	ms := fr.ex.P.SSA.MethodSets.MethodSet(wt)
+	sel := ms.Lookup(nil, "EncodeTo")
+	if sel == nil {
+		ms = fr.ex.P.SSA.MethodSets.MethodSet(types.NewPointer(wt))
+		sel = ms.Lookup(nil, "EncodeTo")
+	}
+	if sel == nil {
+		return false
+	}
+	mf := fr.ex.P.SSA.MethodValue(sel)
+	if mf == nil {
+		return false
+	}
+	st2, ok3 := args[1].(TV)
+	if !ok3 {
+		return false
+	}
+	sl, _ := st2.Typ.Underlying().(*types.Slice)
+	if sl == nil {
+		return false
+	}
+	elemT := sl.Elem()
+	elem := Typed(Select(SliceArr(st), Add(SliceOff(st), lamVar)), elemT)
+	elemW := convertRepr(elem, elemT, wt)
+	var recv Val = TV{elemW, wt}
+	if _, isP := mf.Signature.Recv().Type().(*types.Pointer); isP {
+		recv = ValPtr{Root: elemW, Elem: wt}
+	}
+	n := SliceLen(st)
+	body := fr.captureStream(ep.Cell, func() {
+		fr.callFunc(nil, mf, []Val{recv, args[0]}, nil, in)
+	})
+	site := fmt.Sprintf("%s@%s", shortName(fr.fn.String()), fr.site(in))
+	cst := stSeg(site)
+	lam := Lam(lamVar, body)
+	fr.emit(args[0], func(r *Term) *Term { return MkCtor(stU64, n, MkCtor(cst, n, lam, r)) })
+	return true
+}
+
+// byteLen: the number of bytes of a stream, when every item has a determined size (segments:
+// count times a body size that does not depend on the index).  nil if not determined.
+func byteLen(s *Term) *Term {
+	switch {
+	case s.Op == "ite":
+		a, b := byteLen(s.Args[1]), byteLen(s.Args[2])
+		if a == nil || b == nil {
+			return nil
+		}
+		return Ite(s.Args[0], a, b)
+	case s.Op != "ctor":
+		return nil
+	}
+	c := ctorOf(s.Sort, s.Name)
+	n := len(s.Args)
+	if c == stNil {
+		return IntC(0)
+	}
+	rest := byteLen(s.Args[n-1])
+	if rest == nil {
+		return nil
+	}
+	switch {
+	case c == stU8:
+		return Add(IntC(1), rest)
+	case c == stU64:
+		return Add(IntC(8), rest)
+	case c == stRaw:
+		return Add(s.Args[0], rest)
+	case isSegCtor(c):
+		lam := s.Args[1]
+		if lam.Op != "lam" {
+			return nil
+		}
+		bl := byteLen(lam.Args[0])
+		if bl == nil {
+			return nil
+		}
+		dep := false
+		collect([]*Term{bl}, func(t *Term) {
+			if t == lam.Bnd[0] {
+				dep = true
+			}
+		})
+		if dep {
+			return nil
+		}
+		return Add(Mul(s.Args[0], bl), rest)
+	}
+	return nil
+}
+
+// wireLenObligations: `wire-length <= e` clauses of a function that writes to its Encoder parameter.
+func (ex *Exec) wireLenObligations(fr *Frame, con *Contract, post *SpecEnv, retG *Term, pos string) {
+	if len(con.WireLen) == 0 {
+		return
+	}
+	var ec *Cell
+	for i, p := range fr.fn.Params {
+		if isEncoderPtr(p.Type()) {
+			if pv, ok := fr.params[i].(PtrV); ok {
+				ec = pv.Cell
+			}
+		}
+	}
+	if ec == nil {
+		ex.oos("%s: wire-length: no Encoder parameter", shortName(fr.fn.String()))
+		return
+	}
+	st := ex.streamOf(ec, MkCtor(stNil))
+	bl := byteLen(st)
+	for _, cl := range con.WireLen {
+		lim := post.term(post.eval(cl.Expr))
+		label := "wire-length:" + strings.ReplaceAll(cl.Src, " ", "")
+		if bl == nil {
+			ex.oos("%s: wire-length: the encoded size is not determined by the stream items (nested variable-size objects)", shortName(fr.fn.String()))
+			ex.oblige(label, "wire-length", pos, retG, TFalse)
+			continue
+		}
+		ex.oblige(label, "wire-length", pos, retG, Le(bl, lim))
 	}
 }
